@@ -18,6 +18,26 @@ CHECKS = {
 }
 
 
+def _watchdog(prop, tier):
+    """No registered command may hang: past the budget (several times the slowest run on the
+    unchanged tree) the check stops with a harness error - it does not claim a violation."""
+    import multiprocessing
+    import signal
+    budget = int(os.environ.get('VERIF_WATCHDOG_S', '0') or (2400 if tier == 'quick' else 6 * 3600))
+
+    def fire(signum, frame):
+        print("HARNESS-ERROR: %s (%s tier) did not finish within %d s; code under test that loops "
+              "or grows without bound shows up like this" % (prop, tier, budget), flush=True)
+        for c in multiprocessing.active_children():
+            try:
+                c.kill()
+            except Exception:   # noqa
+                pass
+        os._exit(2)
+    signal.signal(signal.SIGALRM, fire)
+    signal.alarm(budget)
+
+
 def main():
     ap = argparse.ArgumentParser()
     ap.add_argument('prop')
@@ -33,6 +53,7 @@ def main():
         print(text)
         print("replay: %s" % ("still violates" if bad else "does not violate"))
         sys.exit(1 if bad else 0)
+    _watchdog(a.prop, a.tier)
     sys.exit(mod.run(a.tier, seed))
 
 
